@@ -1058,7 +1058,7 @@ func runC19(c *Ctx) {
 	}
 	nGen := 120
 	if c.Thorough {
-		nGen = 2500
+		nGen = 1600
 	}
 	if os.Getenv("C19_ONLY_CORPUS") != "" {
 		nGen = 0
